@@ -2,19 +2,18 @@ INIT Init
 NEXT Next
 CONSTANTS
   MaxCoord = 2
-  FeatStrands = {"+"}
-  QStrands = {"."}
+  FeatStrands = {"+","-"}
+  QStrands = {".","+"}
   NContigs = 1
   MemoCap = 4
-  MaxFeat = 3
+  MaxFeat = 2
   MaxSorts = 2
   MaxQueries = 2
   BetweenOn = TRUE
   AnnotLevel = 1
   UnsortedQueries = TRUE
-  TrackHist = FALSE
-  Variant = "impl"
-INVARIANT Inv_C16_At
-INVARIANT Inv_C16_Between
-INVARIANT Inv_C16_Annotate
+  TrackHist = TRUE
+  Variant = "design"
+VIEW mcview
+CONSTRAINT EmitScenario
 CHECK_DEADLOCK FALSE
